@@ -112,6 +112,17 @@ theorem filters_compose (lower : String → String) (hvt : VtLossless vt) (doc :
   rw [chain_new_html lower fs vs hvs]
   exact chain_run_chained tk ev vs _ _ hch
 
+/-- **The hypotheses are decidable**: `stepsOKB` (Proofs/FilterDom.lean) evaluates a sufficient condition for
+`StepsOK` — domain of every filter on the document it sees, `TokAgree` of every intermediate document — with
+the verbatim pieces tokenised by the tokenizer itself (`vtOf tk`).  Where it answers `true`, the chain
+model emits the serialisation of the reference edits.  The driver evaluates it on every generated case
+(tag `thm-applies`), and concrete instances are obtained by kernel evaluation (example below). -/
+theorem filters_compose_checked (lower : String → String) (doc : List Node) (fs : List BodyFilter)
+    (h : stepsOKB tk ev (vtOf tk) doc fs = true) :
+    (Chain.new noCodec lower fs [] : Chain Unit Unit).run tk ev noCodec [serializeList doc] =
+      serializeList (editAllD (decOf ev) doc fs) :=
+  filters_compose tk ev (vtOf tk) lower (vtOf_lossless tk) doc fs (stepsOKB_sound tk ev (vtOf tk) fs doc h)
+
 /-! ### the excluded points are real (kernel-checked on the chain model with the tokenizer of C16) -/
 
 /-- `<a><b></b><b></b><b></b></a>` -/
@@ -191,5 +202,37 @@ theorem absent_path_noop (v : Visitor) (doc : List Node) (hvt : VtLossless vt)
 theorem reference_is_edit (doc : List Node) (fs : List BodyFilter) :
     editAllD selMatches doc fs = editAll doc fs :=
   editAllD_selMatches doc fs
+
+/-! ### non-vacuity: an end-to-end instance with the tokenizer model of C16, by kernel evaluation -/
+
+/-- `<!Node.verb [60, 33, 68, 79, 67, 84, 89, 80, 69, 32, 104, 116, 109, 108, 62] [],
+   Node.el [104, 116, 109, 108] [72, 84, 77, 76] [32, 108, 97, 110, 103, 61, 34, 97, 62, 98, 34] .normal [Node.el [104, 101, 97, 100] [104, 101, 97, 100] [] .normal [Node.el [109, 101, 116, 97] [109, 101, 116, 97] [32, 99, 104, 97, 114, 115, 101, 116, 61, 117, 116, 102, 45, 56] .void [], Node.el [116, 105, 116, 108, 101] [116, 105, 116, 108, 101] [] .raw [Node.verb [97, 32, 38, 108, 116, 59, 32, 98] []]], Node.el [98, 111, 100, 121] [98, 111, 100, 121] [32, 99, 108, 97, 115, 115, 61, 39, 120, 39] .normal [Node.verb [60, 33, 45, 45, 32, 60, 109, 97, 105, 110, 62, 32, 45, 45, 62] [], Node.el [109, 97, 105, 110] [109, 97, 105, 110] [] .normal [Node.el [112] [112] [] .normal [Node.verb [111, 110, 101] []], Node.el [98, 114] [98, 114] [] .selfClosing [], Node.el [112] [80] [32, 105, 100, 61, 34, 50, 34] .normal [Node.verb [116, 119, 111] []]], Node.el [115, 116, 121, 108, 101] [115, 116, 121, 108, 101] [] .raw [Node.verb [112, 32, 62, 32, 97, 32, 123, 125, 32, 47, 42, 32, 60, 109, 97, 105, 110, 62, 32, 42, 47] []]]],
+   Node.verb [10] []TYPE html><HTML lang="a>b"><head><meta charset=utf-8><title>a &lt; b</title></head><body class='x'>`
+`<!-- <main> --><main><p>one</p><br/><P id="2">two</P></main><style>p > a {} /* <main> */</style></body></HTML>` + newline
+(a `script` element would do as well for the theorem, but the kernel does not reduce the script sub-automaton of
+the tokenizer model) -/
+def exDoc : List Node :=
+  [Node.verb [60, 33, 68, 79, 67, 84, 89, 80, 69, 32, 104, 116, 109, 108, 62] [],
+   Node.el [104, 116, 109, 108] [72, 84, 77, 76] [32, 108, 97, 110, 103, 61, 34, 97, 62, 98, 34] .normal [Node.el [104, 101, 97, 100] [104, 101, 97, 100] [] .normal [Node.el [109, 101, 116, 97] [109, 101, 116, 97] [32, 99, 104, 97, 114, 115, 101, 116, 61, 117, 116, 102, 45, 56] .void [], Node.el [116, 105, 116, 108, 101] [116, 105, 116, 108, 101] [] .raw [Node.verb [97, 32, 38, 108, 116, 59, 32, 98] []]], Node.el [98, 111, 100, 121] [98, 111, 100, 121] [32, 99, 108, 97, 115, 115, 61, 39, 120, 39] .normal [Node.verb [60, 33, 45, 45, 32, 60, 109, 97, 105, 110, 62, 32, 45, 45, 62] [], Node.el [109, 97, 105, 110] [109, 97, 105, 110] [] .normal [Node.el [112] [112] [] .normal [Node.verb [111, 110, 101] []], Node.el [98, 114] [98, 114] [] .selfClosing [], Node.el [112] [80] [32, 105, 100, 61, 34, 50, 34] .normal [Node.verb [116, 119, 111] []]], Node.el [115, 116, 121, 108, 101] [115, 116, 121, 108, 101] [] .raw [Node.verb [112, 32, 62, 32, 97, 32, 123, 125, 32, 47, 42, 32, 60, 109, 97, 105, 110, 62, 32, 42, 47] []]]],
+   Node.verb [10] []]
+
+/-- replace `html > body > main > p` (two siblings) by `<li>x</li>`; then append_child `<hr>` to `main` unless it
+contains a `table`; then prepend_child `<base href=/>` to `head` -/
+def exFilters : List BodyFilter :=
+  [BodyFilter.html filterActionReplace [[104, 116, 109, 108], [98, 111, 100, 121], [109, 97, 105, 110], [112]] none [60, 108, 105, 62, 120, 60, 47, 108, 105, 62],
+   BodyFilter.html filterActionAppend [[109, 97, 105, 110]] (some [116, 97, 98, 108, 101]) [60, 104, 114, 62],
+   BodyFilter.html filterActionPrepend [[104, 101, 97, 100]] none [60, 98, 97, 115, 101, 32, 104, 114, 101, 102, 61, 47, 62]]
+
+theorem exDoc_checked :
+    stepsOKB htmlTokenize evalStandIn (vtOf htmlTokenize) exDoc exFilters = true := by decide +kernel
+
+/-- the chain model (tokenizer of C16, element-name selector oracle) on the serialised document gives
+`…<head><base href=/><meta …>…<main><li>x</li><br/><li>x</li><hr></main>…`, by the theorem. -/
+example :
+    (Chain.new noCodec (fun s => s) exFilters [] : Chain Unit Unit).run htmlTokenize evalStandIn noCodec
+        [serializeList exDoc] =
+      [60, 33, 68, 79, 67, 84, 89, 80, 69, 32, 104, 116, 109, 108, 62, 60, 72, 84, 77, 76, 32, 108, 97, 110, 103, 61, 34, 97, 62, 98, 34, 62, 60, 104, 101, 97, 100, 62, 60, 98, 97, 115, 101, 32, 104, 114, 101, 102, 61, 47, 62, 60, 109, 101, 116, 97, 32, 99, 104, 97, 114, 115, 101, 116, 61, 117, 116, 102, 45, 56, 62, 60, 116, 105, 116, 108, 101, 62, 97, 32, 38, 108, 116, 59, 32, 98, 60, 47, 116, 105, 116, 108, 101, 62, 60, 47, 104, 101, 97, 100, 62, 60, 98, 111, 100, 121, 32, 99, 108, 97, 115, 115, 61, 39, 120, 39, 62, 60, 33, 45, 45, 32, 60, 109, 97, 105, 110, 62, 32, 45, 45, 62, 60, 109, 97, 105, 110, 62, 60, 108, 105, 62, 120, 60, 47, 108, 105, 62, 60, 98, 114, 47, 62, 60, 108, 105, 62, 120, 60, 47, 108, 105, 62, 60, 104, 114, 62, 60, 47, 109, 97, 105, 110, 62, 60, 115, 116, 121, 108, 101, 62, 112, 32, 62, 32, 97, 32, 123, 125, 32, 47, 42, 32, 60, 109, 97, 105, 110, 62, 32, 42, 47, 60, 47, 115, 116, 121, 108, 101, 62, 60, 47, 98, 111, 100, 121, 62, 60, 47, 72, 84, 77, 76, 62, 10] := by
+  rw [filters_compose_checked htmlTokenize evalStandIn (fun s => s) exDoc exFilters exDoc_checked]
+  decide +kernel
 
 end Rio.C15
